@@ -65,6 +65,7 @@ pub fn strings() -> Vec<RV> {
         s("-170141183460469231731687303715884105728"), s("79228162514264337593543950335"), s("79228162514264337593543950336"),
         s("0.00000000000000000000000000001"),
         s("2015-07-30T03:26:13Z"), s("2015-07-30T03:26:13+02:00"), s("2016-12-31T23:59:60Z"), s("+262142-12-31T23:59:59Z"), s("+262143-01-01T00:00:00Z"),
+        s("true"), s("false"), s("none"),
         s("ß"), s("İ"), s("ǅx"), s("a"), s("b"), s("ab"), s("\u{a0}x\u{2003}"),
     ]
 }
